@@ -87,6 +87,7 @@ func (w *World) Run(restarts int) (res Result, err error) {
 		w.mu.Lock()
 		w.Cancel = cancel
 		w.canceled, w.passTerminal = false, false
+		w.newRunLocked() // the process starts: a new run
 		w.mu.Unlock()
 		for _, a := range w.F.Env["0:1"] { // scripted before anything was called
 			w.Env(a)
@@ -141,7 +142,7 @@ func (w *World) Run(restarts int) (res Result, err error) {
 				// scripted actions whose call never came (the pass had fewer calls): now
 			case !w.F.Replay && w.grown < w.C.Growth && res.Steps%2 == 0:
 				act = "grow"
-			case !w.F.Replay && w.destInt < w.contiguous():
+			case !w.F.Replay && w.destInt < w.contiguous() && w.signerAwake():
 				act = "integrateall"
 			case w.C.Forked && w.pass >= 3+forkedRefusals:
 				act = "cancel" // a source that cannot prove consistency is refused pass after pass
